@@ -7,26 +7,30 @@ import JsightVerif.Model.Project
   include graph and every fuel.  The invariant: the scanner state of the file being read and of every
   suspended file is covered by the reach certificate (`Good`), so the scanner theorems of
   Proofs/StackSafe.lean apply to every call of `Next` the core makes.
-  What is *not* shown here: the three dereferences of `currentDirective` in
-  processParameter / processAnnotation / processBody (that a parameter, annotation or body lexeme never
-  arrives without a directive is a property of the order of lexemes, which the abstract domain does not
-  track); they stay with the correspondence.
+  The order part of the abstract domain (a Keyword lexeme is more recent than any closing parenthesis
+  whenever a parameter, annotation or body lexeme is reported) gives, with the invariant "in that phase
+  `currentDirective` is set, or the scanner has just been resumed after an INCLUDE", that
+  processParameter and processAnnotation never dereference a nil `currentDirective`.  What is *not* shown:
+  that no body lexeme is the first lexeme after an INCLUDE line (processBody right after a resume) — the
+  abstract domain does not know that the keyword that has just ended is INCLUDE; correspondence-level.
 -/
 namespace JsightVerif.Model
 open JsightVerif.Gen
 
 section
 variable (inputs : List UInt8) (reachAt : St → List (RKey St)) (ht : TableOk Gen.prog inputs reachAt)
-  (hroot : (reachAt .stateRoot).contains ([], [], 0, true, [], 0) = true)
+  (hroot : (reachAt .stateRoot).contains ([], [], 0, true, [], 0, false) = true)
 
 /-- every scanner of the project is in a covered state -/
 def ScansGood (c : Core) : Prop :=
   Good c.current.env reachAt c.current.sc ∧ ∀ p ∈ c.suspended, Good p.1.env reachAt p.1.sc
 
-/-- the crash sites of the scanning stage that are excluded here -/
-def ScanStagePanic (site : String) : Prop :=
-  site ≠ "processParameter: currentDirective is nil" ∧ site ≠ "processAnnotation: currentDirective is nil" ∧
-  site ≠ "processBody: currentDirective is nil"
+/-- the crash sites of the scanning stage that are excluded here: all but one -/
+def ScanStagePanic (site : String) : Prop := site ≠ "processBody: currentDirective is nil"
+
+/-- in the phase where the scanner may report a parameter, annotation or body lexeme the core has a
+    current directive — or has just resumed this scanner after an INCLUDE (then the first lexeme is checked) -/
+def CoreRel (c : Core) : Prop := c.current.sc.ph = true → (c.cur ≠ none ∨ c.resumed = true)
 
 def NoScanPanic : Except PFault Core → Prop
   | .error (.panic site) => ¬ ScanStagePanic site
@@ -52,8 +56,10 @@ theorem processCurrent_scans (c c' : Core) (h : c.processCurrent = .ok c') :
 
 /-- `core.next` on a lexeme that lies inside the current file -/
 theorem onLexeme_safe (c : Core) (l : Lexeme) (hl : WFLex c.current.env.size l) :
-    (∀ site, c.onLexeme l = .error (.panic site) → ¬ ScanStagePanic site) ∧
-    (∀ c', c.onLexeme l = .ok c' → c'.current = c.current ∧ c'.suspended = c.suspended) := by
+    (∀ site, c.onLexeme l = .error (.panic site) → site = "processBody: currentDirective is nil" ∨
+        (c.cur = none ∧ (l.ty = .Parameter ∨ l.ty = .Annotation))) ∧
+    (∀ c', c.onLexeme l = .ok c' → c'.current = c.current ∧ c'.suspended = c.suspended ∧ c'.resumed = c.resumed ∧
+        (l.ty = .ContextExplicitClosing ∨ c'.cur ≠ none)) := by
   have hv : ∀ c1 : Core, c1.current = c.current → ∃ v, lexBytes c1.current l = some v := by
     intro c1 h1
     rw [h1]
@@ -65,7 +71,6 @@ theorem onLexeme_safe (c : Core) (l : Lexeme) (hl : WFLex c.current.env.size l) 
     · -- Keyword
       split at h
       · rename_i f hp
-        -- processCurrent never panics
         unfold Core.processCurrent at hp
         repeat' split at hp
         all_goals first | (cases hp; done) | (cases hp; cases h)
@@ -74,19 +79,23 @@ theorem onLexeme_safe (c : Core) (l : Lexeme) (hl : WFLex c.current.env.size l) 
         simp only [hv1] at h
         repeat' split at h
         all_goals cases h
-    · split at h
-      · cases h; simp [ScanStagePanic]
+    · rename_i hty
+      split at h
+      · rename_i hcur
+        exact Or.inr ⟨hcur, Or.inl hty⟩
       · obtain ⟨v, hv1⟩ := hv c rfl
         simp only [hv1] at h
         repeat' split at h
         all_goals cases h
-    · split at h
-      · cases h; simp [ScanStagePanic]
+    · rename_i hty
+      split at h
+      · rename_i hcur
+        exact Or.inr ⟨hcur, Or.inr hty⟩
       · obtain ⟨v, hv1⟩ := hv c rfl
         simp only [hv1] at h
         cases h
     all_goals (repeat' split at h)
-    all_goals first | (cases h; done) | (cases h; simp [ScanStagePanic])
+    all_goals first | (cases h; done) | (cases h; exact Or.inl rfl) | skip
     all_goals (rename_i hp; unfold Core.processCurrent at hp; repeat' split at hp)
     all_goals first | (cases hp; done) | (cases hp; cases h)
   · intro c' h
@@ -95,25 +104,44 @@ theorem onLexeme_safe (c : Core) (l : Lexeme) (hl : WFLex c.current.env.size l) 
       · cases h
       · rename_i c1 hp
         have h1 := processCurrent_scans c c1 hp
+        have hres : c1.resumed = c.resumed := by
+          unfold Core.processCurrent at hp
+          repeat' split at hp
+          all_goals first | (cases hp; done) | (cases hp; rfl)
         repeat' split at h
         all_goals first
           | (cases h; done)
           | (rename_i htf; cases h; dsimp only
              have := tracerFor_scans c1
-             rw [htf] at this
-             exact ⟨this.1.trans h1.1, this.2.trans h1.2⟩)
+             have hr : c1.tracerFor.2.resumed = c1.resumed := by
+               unfold Core.tracerFor
+               repeat' split
+               all_goals rfl
+             rw [htf] at this hr
+             exact ⟨this.1.trans h1.1, this.2.trans h1.2, hr.trans hres, Or.inr (by simp)⟩)
     all_goals (repeat' split at h)
     all_goals first
       | (cases h; done)
-      | (cases h; exact ⟨rfl, rfl⟩)
+      | (cases h; exact ⟨rfl, rfl, rfl, Or.inr (by simp)⟩)
       | skip
-    all_goals (rename_i hp _ _ _; cases h; exact ⟨(processCurrent_scans _ _ hp).1, (processCurrent_scans _ _ hp).2⟩)
+    all_goals (cases h
+               have hres : ∀ c1 : Core, c.processCurrent = .ok c1 → c1.resumed = c.resumed := by
+                 intro c1 hp1
+                 unfold Core.processCurrent at hp1
+                 repeat' split at hp1
+                 all_goals first | (cases hp1; done) | (cases hp1; rfl)
+               have key : ∀ (c1 : Core), c.processCurrent = Except.ok c1 → ∀ (ctx' : Ctx Dir) (cu : Option Dir),
+                   ({ c1 with ctx := ctx' } : Core).current = c.current ∧ ({ c1 with ctx := ctx' } : Core).suspended = c.suspended ∧
+                   ({ c1 with ctx := ctx' } : Core).resumed = c.resumed ∧ (l.ty = LexType.ContextExplicitClosing ∨ cu ≠ none) :=
+                 fun c1 hp1 _ _ => ⟨(processCurrent_scans c c1 hp1).1, (processCurrent_scans c c1 hp1).2, hres c1 hp1,
+                   Or.inl ‹l.ty = LexType.ContextExplicitClosing›⟩
+               exact key _ (by assumption) _ _)
 
 include ht hroot in
 /-- processInclude: reads the file name with one more call of `Next`, then switches to the new file -/
 theorem processInclude_safe (c : Core) (fsys : FileSys) (kw : Lexeme) (hJ : ScansGood reachAt c) :
     (∀ site, c.processInclude fsys kw ≠ .error (.panic site)) ∧
-    (∀ c', c.processInclude fsys kw = .ok c' → ScansGood reachAt c') := by
+    (∀ c', c.processInclude fsys kw = .ok c' → ScansGood reachAt c' ∧ CoreRel c') := by
   have hn := next_sound c.current.env Gen.prog inputs reachAt ht (scanFuel c.current.env) c.current.sc hJ.1
   unfold Core.processInclude
   by_cases hb : c.banned.contains Kind.Include = true
@@ -127,7 +155,7 @@ theorem processInclude_safe (c : Core) (fsys : FileSys) (kw : Lexeme) (hJ : Scan
       exact ⟨fun site h => (by simp only [Except.error.injEq] at h; exact scanFault_not_panic c f hn site h), fun c' h => (by cases h)⟩
     | ok r =>
       obtain ⟨param, sc'⟩ := r
-      rintro ⟨hg', hwf⟩
+      rintro ⟨hg', hwf, _⟩
       dsimp only
       cases param with
       | none => exact ⟨fun site h => (by cases h), fun c' h => (by cases h)⟩
@@ -137,7 +165,7 @@ theorem processInclude_safe (c : Core) (fsys : FileSys) (kw : Lexeme) (hJ : Scan
         · simp only [hty, if_true]
           exact ⟨fun site h => (by cases h), fun c' h => (by cases h)⟩
         · simp only [hty, Bool.false_eq_true, if_false]
-          obtain ⟨raw, hraw⟩ := lexValue_wf c.current.env p (hwf p rfl)
+          obtain ⟨raw, hraw⟩ := lexValue_wf c.current.env p (hwf p rfl).1
           simp only [lexBytes, hraw]
           constructor
           · intro site h
@@ -148,7 +176,7 @@ theorem processInclude_safe (c : Core) (fsys : FileSys) (kw : Lexeme) (hJ : Scan
             all_goals first
               | (cases h; done)
               | (cases h
-                 refine ⟨good_init _ reachAt .stateRoot hroot, ?_⟩
+                 refine ⟨⟨good_init _ reachAt .stateRoot hroot, ?_⟩, fun hp => by simp [Sc.init] at hp⟩
                  intro q hq
                  rcases List.mem_cons.mp hq with rfl | hq
                  · exact hg'
@@ -175,14 +203,15 @@ theorem onEOF_not_panic (c : Core) (site : String) : c.onEOF ≠ .error (.panic 
 
 include ht hroot in
 /-- **the scanning stage of a project**: whatever the files, the include graph and the fuel, the only
-    crash sites the model of the core's scanning loop can reach are the three dereferences of
-    `currentDirective`; no crash site of the scanner, and no lexeme value outside its file -/
-theorem run_safe (fsys : FileSys) (n : Nat) : ∀ (c : Core), ScansGood reachAt c →
+    crash site the model of the core's scanning loop can reach is the dereference of `currentDirective`
+    in processBody; no crash site of the scanner, no lexeme value outside its file, no nil
+    `currentDirective` in processParameter / processAnnotation -/
+theorem run_safe (fsys : FileSys) (n : Nat) : ∀ (c : Core), ScansGood reachAt c → CoreRel c →
     ∀ site, Core.run fsys n c = .error (.panic site) → ¬ ScanStagePanic site := by
   induction n with
-  | zero => intro c _ site h; simp [Core.run] at h
+  | zero => intro c _ _ site h; simp [Core.run] at h
   | succ n ih =>
-    intro c hJ site h
+    intro c hJ hR site h
     have hn := next_sound c.current.env Gen.prog inputs reachAt ht (scanFuel c.current.env) c.current.sc hJ.1
     simp only [Core.run] at h
     revert hn h
@@ -193,12 +222,11 @@ theorem run_safe (fsys : FileSys) (n : Nat) : ∀ (c : Core), ScansGood reachAt 
       exact absurd h (scanFault_not_panic c f hn site)
     | ok r =>
       obtain ⟨lex, sc'⟩ := r
-      rintro ⟨hg', hwf⟩ h
+      rintro ⟨hg', hwf, hnone⟩ h
       cases lex with
       | some l =>
         dsimp only at h
-        have hl : WFLex c.current.env.size l := hwf l rfl
-        -- the core with the advanced scanner
+        obtain ⟨hl, hneed, hph1⟩ := hwf l rfl
         have hJ1 : ∀ (res : Bool), ScansGood reachAt ({ ({ c with current := { c.current with sc := sc' } } : Core) with resumed := res }) :=
           fun _ => ⟨hg', hJ.2⟩
         split at h
@@ -207,7 +235,13 @@ theorem run_safe (fsys : FileSys) (n : Nat) : ∀ (c : Core), ScansGood reachAt 
           · split at heq
             all_goals first | (cases heq; cases h; done) | (cases heq; done)
           · cases heq
-        · split at h
+        · rename_i heq
+          -- no error for the first lexeme after a resume: not resumed, or neither a parameter nor an annotation
+          have hnores : c.resumed = true → l.ty ≠ .Parameter ∧ l.ty ≠ .Annotation := by
+            intro hres
+            simp only [hres, if_true] at heq
+            constructor <;> (intro hty; simp [hty] at heq)
+          split at h
           · -- INCLUDE
             split at h
             · rename_i f hinc
@@ -215,18 +249,37 @@ theorem run_safe (fsys : FileSys) (n : Nat) : ∀ (c : Core), ScansGood reachAt 
               subst h
               exact absurd hinc ((processInclude_safe inputs reachAt ht hroot _ fsys l (hJ1 false)).1 site)
             · rename_i c' hinc
-              exact ih c' ((processInclude_safe inputs reachAt ht hroot _ fsys l (hJ1 false)).2 c' hinc) site h
+              obtain ⟨hsg, hcr⟩ := (processInclude_safe inputs reachAt ht hroot _ fsys l (hJ1 false)).2 c' hinc
+              exact ih c' hsg hcr site h
           · split at h
             · rename_i f hon
               simp only [Except.error.injEq] at h
               subst h
-              refine (onLexeme_safe _ l ?_).1 site hon
-              exact hl
+              have := (onLexeme_safe _ l (by exact hl)).1 site hon
+              rcases this with hs | ⟨hcur, hty⟩
+              · simp [ScanStagePanic, hs]
+              · -- a parameter / annotation without a current directive: excluded by the phase
+                exfalso
+                have hcur' : c.cur = none := hcur
+                have hp : c.current.sc.ph = true := hneed (by rcases hty with h1 | h1 <;> simp [h1, phNeeds])
+                rcases hR hp with hc | hres
+                · exact hc hcur'
+                · have := hnores hres
+                  rcases hty with h1 | h1
+                  · exact this.1 h1
+                  · exact this.2 h1
             · rename_i c' hon
-              have hsame := (onLexeme_safe _ l (by exact hl)).2 c' hon
-              refine ih c' ?_ site h
-              have hj := hJ1 false
-              exact ⟨by rw [hsame.1]; exact hj.1, by rw [hsame.2]; exact hj.2⟩
+              obtain ⟨hs1, hs2, hs3, hs4⟩ := (onLexeme_safe _ l (by exact hl)).2 c' hon
+              refine ih c' ?_ ?_ site h
+              · have hj := hJ1 false
+                exact ⟨by rw [hs1]; exact hj.1, by rw [hs2]; exact hj.2⟩
+              · intro hp
+                rw [hs1] at hp
+                have hp' : sc'.ph = true := hp
+                rcases hs4 with hty | hc
+                · rw [hph1, hty] at hp'
+                  simp [phAfter] at hp'
+                · exact Or.inl hc
       | none =>
         dsimp only at h
         split at h
@@ -239,12 +292,14 @@ theorem run_safe (fsys : FileSys) (n : Nat) : ∀ (c : Core), ScansGood reachAt 
           split at h
           · cases h
           · rename_i sfs at_ rest hsus
-            refine ih _ ?_ site h
-            have hmem : ∀ p ∈ c2.suspended, Good p.1.env reachAt p.1.sc := by
-              rw [hsame.2]; exact hJ.2
-            refine ⟨hmem (sfs, at_) (by rw [hsus]; simp), ?_⟩
-            intro p hp
-            exact hmem p (by rw [hsus]; exact List.mem_cons_of_mem _ hp)
+            refine ih _ ?_ ?_ site h
+            · have hmem : ∀ p ∈ c2.suspended, Good p.1.env reachAt p.1.sc := by
+                rw [hsame.2]; exact hJ.2
+              refine ⟨hmem (sfs, at_) (by rw [hsus]; simp), ?_⟩
+              intro p hp
+              exact hmem p (by rw [hsus]; exact List.mem_cons_of_mem _ hp)
+            · intro _
+              exact Or.inr rfl
 
 end
 
